@@ -210,7 +210,14 @@ PROPS = {
     'C14': dict(
         v=[('u_common', ['increase_to_alignment', 'lemma_round8_bv', 'lemma_round8_props', 'BytesRef::try_from',
                          'DynSizedStructure::ref_from_bytes', 'DynSizedStructure::ref_from_slice',
-                         'Header::total_size', 'lemma_vslice_wf'])],
+                         'Header::total_size', 'lemma_vslice_wf']),
+           # "for each header kind": the four Header implementations (payload_len / total_size / set_size)
+           ('u_mb2_core', ['TagHeader::payload_len', 'TagHeader::set_size', 'TagHeader::lemma_hdr_layout',
+                           'BootInformationHeader::payload_len', 'BootInformationHeader::total_size', 'BootInformationHeader::set_size',
+                           'BootInformationHeader::lemma_hdr_layout', 'Header::total_size']),
+           ('u_hdr_core', ['HeaderTagHeader::payload_len', 'HeaderTagHeader::set_size', 'HeaderTagHeader::lemma_hdr_layout',
+                           'Multiboot2BasicHeader::payload_len', 'Multiboot2BasicHeader::set_size', 'Multiboot2BasicHeader::lemma_hdr_layout',
+                           'Header::total_size'])],
         k_quick=['k_increase_to_alignment_contract', 'k_increase_to_alignment', 'k_bytesref_try_from', 'k_ref_from_slice', 'k_dyn_layout'],
         k_thorough=[],
     ),
